@@ -36,6 +36,7 @@ Lex == [
   selfclose|-> <<"/>">>,
   slash    |-> <<"/">>,
   cmtopen  |-> <<"<!--", "<!", "<!-", "<!DOCTYPE html>", "<?xml?>", "<![CDATA[">>,
+  metaopen |-> <<"<!DOCTYPE", "<!META", "<!a", "<!doctype html PUBLIC", "<!A-b">>,      \* unknown meta tags: an attribute loop of their own
   cmtclose |-> <<"-->", "--!>", "->">>,
   dash     |-> <<"-", "--", "---">>,
   open2    |-> <<"{{", "{{{", "{ {", "{">>,
@@ -92,7 +93,8 @@ Classes == DOMAIN Lex
 (* transitions: context -> set of <<class, next context>>.  "RET" stands for the context in ret. *)
 T == [
   Text |-> { <<"txt", "Text">>, <<"ws", "Text">>, <<"uws", "Text">>, <<"odd", "Text">>, <<"lt", "TagOpen">>, <<"ltslash", "EndTag">>,
-             <<"cmtopen", "Comment">>, <<"open2", "Operand">>, <<"ent", "Text">>, <<"gt", "Text">>, <<"close2", "Text">>, <<"junk", "Text">> },
+             <<"cmtopen", "Comment">>, <<"open2", "Operand">>, <<"ent", "Text">>, <<"gt", "Text">>, <<"close2", "Text">>, <<"junk", "Text">>,
+             <<"metaopen", "InTag">> },
   TagOpen |-> { <<"name", "InTag">>, <<"wxsopen", "WxsBody">>, <<"badname", "InTag">>, <<"ws", "InTag">>, <<"uws", "InTag">>, <<"odd", "InTag">>,
                 <<"gt", "Text">>, <<"slash", "InTag">>, <<"lt", "TagOpen">>, <<"open2", "Operand">>, <<"selfclose", "Text">> },
   InTag |-> { <<"ws", "InTag">>, <<"uws", "InTag">>, <<"odd", "InTag">>, <<"attr", "AfterName">>, <<"colon", "InTag">>, <<"eq", "AfterEq">>,
